@@ -2,6 +2,7 @@
 package props
 
 import (
+	"strings"
 	"bufio"
 	"encoding/json"
 	"fmt"
@@ -95,6 +96,12 @@ func TestWorker(t *testing.T) {
 			sum.Capped++
 		}
 		for k, v := range res.Stats {
+			if strings.HasPrefix(k, "max_") {
+				if v > sum.Stats[k] {
+					sum.Stats[k] = v
+				}
+				continue
+			}
 			sum.Stats[k] += v
 		}
 		if res.Nontrivial {
